@@ -230,6 +230,15 @@ func runC17Listener(c *kernel.Ctx) {
 		}
 		c.Probe("outbound-writes")
 	}
+	closing := ""
+	if started && t.Chance(1, 3) {
+		// the server side closes the connection right after its last write (an error reply followed by a
+		// close, a broker shutting down): what it wrote before the close is on its way like on any socket
+		srv.Close()
+		world.Settle()
+		closing = " closed-after-last-write"
+		c.Fault("server-close-right-after-write")
+	}
 	world.Advance(c, 1100*time.Millisecond)
 	world.Advance(c, 1100*time.Millisecond)
 	if !started {
@@ -250,7 +259,7 @@ func runC17Listener(c *kernel.Ctx) {
 		c.Check("in", fmt.Sprintf("len=%d", min(len(in), 10)), "bytes read through the listener differ from the bytes sent at offset %d (sent %d bytes, read %d): sent % x.. read % x..", d, len(in), len(got), clip(in, d), clip(got, d))
 	}
 	if d := firstDiff(out, client.bytes()); d >= 0 {
-		c.Check("out", fmt.Sprintf("rate=%d", rate), "bytes received by the client differ from the bytes written at offset %d (written %d, received %d)", d, len(out), len(client.bytes()))
+		c.Check("out", fmt.Sprintf("rate=%d%s", rate, closing), "bytes received by the client differ from the bytes written at offset %d (written %d, received %d)%s", d, len(out), len(client.bytes()), closing)
 	}
 	if len(in) >= 64 && len(out) >= 64 {
 		c.NonTrivial()
